@@ -294,4 +294,37 @@ theorem ordYM_year (y k m d : Int) : ordYM (y + k) m d = ordYM y (m + 12 * k) d 
   have : 12 * (y + k) + m - 1 = 12 * y + (m + 12 * k) - 1 := by omega
   rw [this]
 
+/-! ### from a day of month that every month has (≤ 28) month arithmetic keeps the day and is additive -/
+
+/-- the date `k` months after a date whose day of month is ≤ 28: same day of month, month count + k -/
+theorem ymd_addMonths (n k : Int) (hd : (ymd n).2.2 ≤ 28) :
+    ymd (addMonths n k) = ((monthCount n + k) / 12, 1 + (monthCount n + k) % 12, (ymd n).2.2) := by
+  obtain ⟨v, _⟩ := ord_ymd n
+  rw [addMonths_eq]
+  unfold monthStart
+  rw [← ord_day]
+  apply ymd_ord
+  have hb := dim_bounds ((monthCount n + k) / 12) (1 + (monthCount n + k) % 12)
+  unfold Valid at *
+  omega
+
+theorem day_addMonths (n k : Int) (hd : day n ≤ 28) : day (addMonths n k) = day n := by
+  unfold day at *; rw [ymd_addMonths n k hd]
+
+theorem monthCount_addMonths (n k : Int) (hd : (ymd n).2.2 ≤ 28) : monthCount (addMonths n k) = monthCount n + k := by
+  show 12 * (ymd (addMonths n k)).1 + (ymd (addMonths n k)).2.1 - 1 = monthCount n + k
+  rw [ymd_addMonths n k hd]; simp only []; omega
+
+/-- month bumps compose: `k` months then `j` months is `k + j` months (day of month ≤ 28) -/
+theorem addMonths_add (n k j : Int) (hd : day n ≤ 28) : addMonths (addMonths n k) j = addMonths n (k + j) := by
+  unfold day at hd
+  rw [addMonths_eq (addMonths n k) j, monthCount_addMonths n k hd, ymd_addMonths n k hd, addMonths_eq n (k + j)]
+  simp only []
+  have : monthCount n + k + j = monthCount n + (k + j) := by omega
+  rw [this]
+
+theorem addMonths_zero (n : Int) : addMonths n 0 = n := by
+  have := day_split n
+  rw [addMonths_eq, Int.add_zero]; omega
+
 end Pyg.Civil
